@@ -1,4 +1,115 @@
-// engine K harnesses for module hook 'dp' (included under cfg(kani) by /repo)
+// engine K — protocol/dp/mod.rs (property C12: parameter validation; noise value -> share mapping at every width)
+use super::*;
+use crate::ff::boolean_array::{BA8, BA16, BA32};
+use crate::secret_sharing::SharedValue;
+use crate::protocol::ipa_prf::oprf_padding::insecure::verif_kani::mk_padding_dp;
+
+/// NoiseParams::new accepts exactly the documented ranges (all non-NaN f64):
+/// epsilon > 0, delta > 0, 0 <= success_prob <= 1, dimensions > 0, quantization_scale > 0, all three sensitivities > 0
+#[kani::proof]
+fn c12_noise_params_new() {
+    let eps: f64 = kani::any();
+    let delta: f64 = kani::any();
+    let p: f64 = kani::any();
+    let d: f64 = kani::any();
+    let q: f64 = kani::any();
+    let l1: f64 = kani::any();
+    let l2: f64 = kani::any();
+    let li: f64 = kani::any();
+    let cap: u32 = kani::any();
+    kani::assume(!eps.is_nan() && !delta.is_nan() && !p.is_nan() && !d.is_nan() && !q.is_nan());
+    kani::assume(!l1.is_nan() && !l2.is_nan() && !li.is_nan());
+    let expect = eps > 0.0 && delta > 0.0 && p >= 0.0 && p <= 1.0 && d > 0.0 && q > 0.0 && l1 > 0.0 && l2 > 0.0 && li > 0.0;
+    kani::cover!(expect);
+    kani::cover!(!expect);
+    match NoiseParams::new(eps, delta, cap, p, d, q, l1, l2, li) {
+        Ok(n) => {
+            assert!(expect);
+            assert!(n.epsilon == eps && n.delta == delta && n.per_user_credit_cap == cap && n.success_prob == p);
+        }
+        Err(_) => assert!(!expect),
+    }
+}
+
+// ---- sample_shares -----------------------------------------------------------------------------------------
+static mut LAST_SAMPLE: u32 = 0;
+
+/// assumed contract of the sampler (probability law not verified): 0 <= sample <= 2 * shift
+fn stub_sample<R: RngCore + CryptoRng>(this: &ShiftedTruncatedDiscreteLaplace, _rng: &mut R) -> u32 {
+    let s: u32 = kani::any();
+    kani::assume(s <= 2 * this.shift);
+    unsafe { LAST_SAMPLE = s };
+    s
+}
+/// assumed contract of OPRFPaddingDp::new on valid parameters: some truncation point <= 1_000_000
+fn stub_padding_new(_e: f64, _d: f64, _s: u32) -> Result<OPRFPaddingDp, crate::protocol::ipa_prf::oprf_padding::insecure::Error> {
+    let shift: u32 = kani::any();
+    kani::assume(shift <= 1_000_000);
+    Ok(mk_padding_dp(shift))
+}
+struct NoRng;
+impl RngCore for NoRng {
+    fn next_u32(&mut self) -> u32 {
+        unreachable!()
+    }
+    fn next_u64(&mut self) -> u64 {
+        unreachable!()
+    }
+    fn fill_bytes(&mut self, _d: &mut [u8]) {
+        unreachable!()
+    }
+    fn try_fill_bytes(&mut self, _d: &mut [u8]) -> Result<(), rand_core::Error> {
+        unreachable!()
+    }
+}
+impl CryptoRng for NoRng {}
+
+fn params() -> NoiseParams {
+    NoiseParams {
+        epsilon: 1.0,
+        delta: 1e-6,
+        per_user_credit_cap: 1,
+        success_prob: 0.5,
+        dimensions: 1.0,
+        quantization_scale: 1.0,
+        ell_1_sensitivity: 1.0,
+        ell_2_sensitivity: 1.0,
+        ell_infty_sensitivity: 1.0,
+    }
+}
+
+/// For output width OV::BITS: the share on the non-excluded side is (sample - shift) mod 2^BITS (two's complement
+/// wrap of the noise value in -shift..=shift, so -1 maps to 2^BITS - 1), the other side is zero.
+macro_rules! sample_shares {
+    ($name:ident, $ov:ty, $unwind:expr) => {
+        #[kani::proof]
+        #[kani::unwind($unwind)]
+        #[kani::stub(ShiftedTruncatedDiscreteLaplace::sample, stub_sample)]
+        #[kani::stub(OPRFPaddingDp::new, stub_padding_new)]
+        fn $name() {
+            let bits = <$ov as SharedValue>::BITS;
+            let Ok(d) = ShiftedTruncatedDiscreteLaplace::new(&params(), bits) else {
+                kani::assume(false);
+                unreachable!()
+            };
+            let left: bool = kani::any();
+            let dir = if left { Direction::Left } else { Direction::Right };
+            let r: Replicated<$ov> = d.sample_shares(&mut NoRng, dir);
+            let s = unsafe { LAST_SAMPLE };
+            let noise = i64::from(s) - i64::from(d.shift);
+            kani::cover!(noise == -1);
+            kani::cover!(noise == 1);
+            kani::cover!(noise == 0);
+            let expect = noise.rem_euclid(1i64 << bits) as u128;
+            let (zero_side, noise_side) = if left { (r.left(), r.right()) } else { (r.right(), r.left()) };
+            assert!(zero_side == <$ov as SharedValue>::ZERO);
+            assert!(noise_side.as_u128() == expect);
+        }
+    };
+}
+sample_shares!(c12_sample_shares_ba8, BA8, 10);
+sample_shares!(c12_sample_shares_ba16, BA16, 18);
+sample_shares!(c12_sample_shares_ba32, BA32, 34);
 
 #[cfg(test)]
 include!(concat!(env!("IPA_VERIF_DIR"), "/.build/playback/dp.rs"));
